@@ -258,8 +258,8 @@ func ext۰strings۰Index(fr *frame, args []value) value {
 func ext۰strings۰Replace(fr *frame, args []value) value {
 	// func Replace(s, old, new string, n int) string
 	s := args[0].(string)
-	new := args[1].(string)
-	old := args[2].(string)
+	old := args[1].(string)
+	new := args[2].(string)
 	n := args[3].(int)
 	return strings.Replace(s, old, new, n)
 }
